@@ -5,7 +5,7 @@ state; no duplicates; every result typed and matching the path part of the searc
 """
 from .. import x as X
 from .base import gen_sid
-from .storebase import StoreProfile, gen_search
+from .storebase import StoreProfile, gen_search, typed_prefixes
 from .finders import answer
 
 import re
@@ -88,7 +88,10 @@ class AlgebraProfile(StoreProfile):
             if st:
                 return st
         for _ in range(8):
-            st = self.gen_relation(run, rng.choice(ents))
+            pool = ents
+            if rng.random() < 0.12:
+                pool = typed_prefixes(m, ents) or ents
+            st = self.gen_relation(run, rng.choice(pool))
             if st:
                 return st
         return {"op": "restart"}
@@ -204,6 +207,11 @@ class AlgebraProfile(StoreProfile):
             return st
         return None
 
+    def constant_level(self, run, s):
+        uf = X.items(run.do(X.call("unfold_search", s)))
+        types = {v["~S"][0] for v in (uf or []) if isinstance(v, dict) and "~S" in v}
+        return any(((run.m.routing.get(t) or {}).get("finder") or {}).get("class") == "FindInConstants" for t in types)
+
     # ------------------------------------------------------------------ execution
     def apply(self, run, step):
         if self.apply_common(run, step):
@@ -258,6 +266,12 @@ class AlgebraProfile(StoreProfile):
                       and m.by_name[u.split(":", 1)[0]].keys[-1] == lk}
             run.check(Ls == U, "C10.dstar_is_not_the_union_of_levels",
                       dict(det, parts=rhs, only_dstar=sorted(Ls - U), only_levels=sorted(U - Ls)))
+        elif rule in ("filter", "literal") and step["party"] == "A" and self.constant_level(run, s):
+            # FindInAll answers constant-backed levels from the constants: a concrete Sid of such a level "exists"
+            # whatever its parent, a starred one is answered from the existing parents (documented behaviour, the
+            # carve-out of C11). Selecting by value is not a relation between those two answers: gated, counted.
+            run.stats["gated_constant_backed_level"] += 1
+            return
         elif rule == "filter":
             # applicability gate: the key must be owned by every type the search unfolds to
             uf = X.items(run.do(X.call("unfold_search", s)))
